@@ -5,7 +5,10 @@ open Gms.Proto Gms.ProcLang
 /-! Line-protocol driver for C24.
 
 Case payload:
-  (proc (params (in 0) (out 1) …) (body <stmt>*) (uvars (0 5) (1 N) …) (calls (<arg>*) …))
+  (proc (params (in 0) (out 1) …) (body <stmt>*) (uvars (0 5) (1 N) …) (calls (<arg>*) …) [(norun)])
+  `(norun)`: the harness states that the body is in `staleIntoClosedBlock` (the driver checks that it
+  is, and that the flag is not missing) and sends `unmodelled:stale-jump-into-closed-block` instead of
+  the run-level observation; only the op lists are compared for such a case.
   <arg>  ::= (u <k>) | (lit <n>) | (lit N)
   <stmt> ::= (block <lab> <stmt>*) | (decl x <n|->) | (set x <e>) | (emit <e>)
            | (if (arm <e> <stmt>*)+ (else <stmt>*)) | (case <e|-> (arm <e> <stmt>*)+ (else <stmt>*)|(noelse))
@@ -176,16 +179,27 @@ def specCall (sem : Sem) (p : Proc) (uks : List Name) (args : List Arg) (s : Opt
     | none => (none, "?")
     | some (o, s') => (some { s' with log := [] }, showCall uks o s')
 
+/-- Run-level observation of a case the harness flagged `(norun)`: the Impl model does not predict
+the engine there (see `staleIntoClosedBlock`); only the compile level is compared. -/
+def norunObs : String := "unmodelled:stale-jump-into-closed-block"
+
 def handle (p : List Sexp) : String :=
   match p with
-  | [.list [.atom "proc", .list (.atom "params" :: ps), .list (.atom "body" :: body),
-      .list (.atom "uvars" :: uvs), .list (.atom "calls" :: calls)]] =>
+  | [.list (.atom "proc" :: .list (.atom "params" :: ps) :: .list (.atom "body" :: body) ::
+      .list (.atom "uvars" :: uvs) :: .list (.atom "calls" :: calls) :: flags)] =>
     match ps.mapM parseParam, parseStmts body, uvs.mapM parseUvar,
         calls.mapM (fun c => c.items.mapM parseArg) with
     | some params, some body, some uvars, some calls =>
       let proc : Proc := { params := params, body := body }
       let ops := compileProgram body
       let opsStr := "ops=" ++ " ".intercalate (ops.map showOp)
+      -- the `(norun)` flag must be present exactly on the cases of `staleIntoClosedBlock`
+      let flagged := flags == [.list [.atom "norun"]]
+      if !flagged && !flags.isEmpty then answer "bad-case"
+      else if flagged != staleIntoClosedBlock body then
+        answer (if flagged then "norun-flag-on-a-modelled-case" else "norun-flag-missing")
+      else if flagged then answer (opsStr ++ " ;; " ++ norunObs) "=" "-"
+      else
       let uks := uvars.map (·.1)
       let s0 : Session := { uvars := uvars, sess := [], log := [] }
       let init : DrvAcc :=
@@ -236,6 +250,11 @@ def handle (p : List Sexp) : String :=
             if hasLeaveBlock [] body then "leave_block_scope_leak"
             else if hasElseBlock body then "else_block_scope_leak"
             else if staleIterate body then "stale_label_iterate"
+            -- a scope leak makes the op machine differ from the structured semantics even under the
+            -- engine's own reading of the three semantic choices; when it does not, the case is left
+            -- to the semantic classes below
+            else if hasIterateRepeatEndBlock [] body && acc.implObs != acc.gmsObs then
+              "iterate_repeat_block_scope_leak"
             else if acc.dirty && acc.implObs != acc.gmsObs then "out_param_not_reset"
             else if acc.implObs == acc.gmsObs then
               -- the divergence is explained by the three semantic choices alone: name the first one
